@@ -380,6 +380,10 @@ func runJournalStopTimes(c *Ctx) {
 			}
 		}
 		c.Check(ok && clean && n > 0, "PART", fname, "entries before the update's first stop are only marked past", p.pos(l.Header.Instrs[0].Pos()), "every element of the partition's prefix gets markPast(feed time) and nothing else", "an entry that precedes the update's first stop is modified other than by marking it past, or is not marked on some path")
+	} else if call := markAllCall(c, tu, stMark, func(seq, tm ssa.Value) bool {
+		return strings.HasSuffix(canon(seq), "."+ps.past+")") && tm == ssa.Value(feedTime)
+	}); call != nil {
+		c.Proved("PART", fname, "entries before the update's first stop are only marked past", p.ipos(call), "the partition's prefix is handed to "+staticCallee(call).Name()+", which gives every element markPast(feed time) and nothing else")
 	} else {
 		c.Violated("PART", fname, "entries before the update's first stop are only marked past", p.pos(tu.Pos()), "no loop over the partition's prefix")
 	}
@@ -822,32 +826,79 @@ func runPartitionShape(c *Ctx, cp *ssa.Function, ps *partShape, b *binder) {
 		if loop == nil {
 			continue
 		}
-		for blk := range loop.Blocks {
-			iff, ok := blk.Instrs[len(blk.Instrs)-1].(*ssa.If)
-			if !ok {
-				continue
+		scan := []*Loop{loop}
+		// the pairing loop may be a plain counter up to a number that a helper counted (the length of the common
+		// prefix): the comparison that ends the alignment is then in that helper's counting loop
+		if hi, isIf := loop.Header.Instrs[len(loop.Header.Instrs)-1].(*ssa.If); isIf {
+			if hb, isB := hi.Cond.(*ssa.BinOp); isB {
+				for _, side := range []ssa.Value{hb.X, hb.Y} {
+					var call *ssa.Call
+					switch x := side.(type) {
+					case *ssa.Call:
+						call = x
+					case *ssa.Extract:
+						call, _ = x.Tuple.(*ssa.Call)
+					}
+					if call == nil || call.Call.IsInvoke() || loop.Blocks[call.Block()] {
+						continue
+					}
+					if h := call.Call.StaticCallee(); h != nil && p.isModuleFn(h) && len(h.Blocks) > 0 {
+						// what the helper returns is the counter of its loop (or 0)
+						counts := true
+						hl := naturalLoops(h)
+						for _, hblk := range h.Blocks {
+							if ret, isRet := hblk.Instrs[len(hblk.Instrs)-1].(*ssa.Return); isRet && len(ret.Results) > 0 {
+								rv := ret.Results[0]
+								if k, isC := constInt(rv); isC && k == 0 {
+									continue
+								}
+								phi, isPhi := rv.(*ssa.Phi)
+								isCtr := false
+								for _, l2 := range hl {
+									if isPhi && phi.Block() == l2.Header {
+										isCtr = true
+									}
+								}
+								if !isCtr {
+									counts = false
+								}
+							}
+						}
+						if counts {
+							scan = append(scan, hl...)
+						}
+					}
+				}
 			}
-			cond, val := normalizeCond(iff.Cond, true)
-			bo, ok := cond.(*ssa.BinOp)
-			if !ok || (bo.Op != token.EQL && bo.Op != token.NEQ) {
-				continue
-			}
-			if bt, isB := bo.X.Type().Underlying().(*types.Basic); !isB || bt.Info()&types.IsString == 0 {
-				continue
-			}
-			l, r := b.bind(bo.X), b.bind(bo.Y)
-			isIDs := (strings.Contains(l, "StopID") || strings.Contains(r, "StopID")) && (strings.Contains(l+r, "StopTimeUpdate") || strings.Contains(l+r, "param:<[]gtfs.StopTimeUpdate>"))
-			if !isIDs {
-				continue
-			}
-			nCmp++
-			// successor taken when the ids differ
-			differIdx := 1
-			if (bo.Op == token.NEQ) == val {
-				differIdx = 0
-			}
-			if loop.Blocks[blk.Succs[differIdx]] {
-				okStop = false
+		}
+		for _, loop := range scan {
+			for blk := range loop.Blocks {
+				iff, ok := blk.Instrs[len(blk.Instrs)-1].(*ssa.If)
+				if !ok {
+					continue
+				}
+				cond, val := normalizeCond(iff.Cond, true)
+				bo, ok := cond.(*ssa.BinOp)
+				if !ok || (bo.Op != token.EQL && bo.Op != token.NEQ) {
+					continue
+				}
+				if bt, isB := bo.X.Type().Underlying().(*types.Basic); !isB || bt.Info()&types.IsString == 0 {
+					continue
+				}
+				l, r := b.bind(bo.X), b.bind(bo.Y)
+				isIDs := (strings.Contains(l, "StopID") || strings.Contains(r, "StopID")) && (strings.Contains(l+r, "StopTimeUpdate") || strings.Contains(l+r, "param:<[]gtfs.StopTimeUpdate>"))
+				if !isIDs {
+					continue
+				}
+				nCmp++
+				// successor taken when the ids differ
+				differIdx := 1
+				if (bo.Op == token.NEQ) == val {
+					differIdx = 0
+				}
+				if loop.Blocks[blk.Succs[differIdx]] {
+					okStop = false
+				}
 			}
 		}
 	}
@@ -968,13 +1019,13 @@ func runJournalTrips(c *Ctx) {
 					case *ssa.Lookup:
 						m, k = x.X, x.Index
 					}
-					if m == nil || !strings.HasSuffix(m.Type().String(), "journal.Trip") {
+					if m == nil || !strings.HasSuffix(m.Type().Underlying().String(), "journal.Trip") {
 						continue
 					}
 					srcOK := false
 					switch kk := k.(type) {
 					case *ssa.Call:
-						srcOK = staticCallee(kk) == uidFn
+						srcOK = resultOf(kk, uidFn, 0)
 					case *ssa.Extract:
 						// key of a range over a map[string]bool filled with such UIDs, or of the trips map itself
 						if nx, ok := kk.Tuple.(*ssa.Next); ok {
@@ -997,6 +1048,7 @@ func runJournalTrips(c *Ctx) {
 	// K2: every trip update of a feed reaches update-or-create, and is recorded as active
 	loops := naturalLoops(bj)
 	var tripLoop, vanishLoop, feedLoop *Loop
+	var applyHelper *ssa.Function // the loop-free helper of the per-trip loop that calls Trip.update on every path, if any
 	var allLoops []*Loop
 	for _, g := range jregion {
 		if g == bj {
@@ -1009,10 +1061,18 @@ func runJournalTrips(c *Ctx) {
 		for blk := range l.Blocks {
 			for _, in := range blk.Instrs {
 				if call, ok := in.(*ssa.Call); ok {
-					switch staticCallee(call) {
-					case tu:
+					if callsOnEveryPath(staticCallee(call), tu, jregion) {
+						// the per-trip work (find or create the entry, apply the update) lives in a helper called from the loop
 						if tripLoop == nil || len(l.Blocks) < len(tripLoop.Blocks) {
 							tripLoop = l
+							applyHelper = staticCallee(call)
+						}
+					}
+					switch staticCallee(call) {
+					case tu:
+						if tripLoop == nil || len(l.Blocks) < len(tripLoop.Blocks) || applyHelper != nil && l.Header.Parent() == applyHelper {
+							tripLoop = l
+							applyHelper = nil
 						}
 					case tm:
 						if vanishLoop == nil || len(l.Blocks) < len(vanishLoop.Blocks) {
@@ -1043,7 +1103,7 @@ func runJournalTrips(c *Ctx) {
 			for _, in := range blk.Instrs {
 				switch x := in.(type) {
 				case *ssa.Call:
-					if staticCallee(x) == tu {
+					if staticCallee(x) == tu || (applyHelper != nil && staticCallee(x) == applyHelper) {
 						upd = true
 					}
 				case *ssa.MapUpdate:
@@ -1065,9 +1125,18 @@ func runJournalTrips(c *Ctx) {
 	c.Check(okAll && n > 0, "ACCT", fname, "every trip of a feed is applied and recorded as present", p.pos(tripLoop.Header.Instrs[0].Pos()), fmt.Sprintf("all %d paths through the per-trip loop call Trip.update and record the uid in the feed's active set", n), why)
 	// create path: fresh entries are stored under the uid only when absent
 	okCreate := false
+	createBlocks := map[*ssa.BasicBlock]bool{}
 	for blk := range tripLoop.Blocks {
+		createBlocks[blk] = true
+	}
+	if applyHelper != nil {
+		for _, blk := range applyHelper.Blocks {
+			createBlocks[blk] = true
+		}
+	}
+	for blk := range createBlocks {
 		for _, in := range blk.Instrs {
-			if mu, ok := in.(*ssa.MapUpdate); ok && strings.HasSuffix(mu.Map.Type().String(), "journal.Trip") {
+			if mu, ok := in.(*ssa.MapUpdate); ok && strings.HasSuffix(mu.Map.Type().Underlying().String(), "journal.Trip") {
 				if _, isAlloc := mu.Value.(*ssa.Alloc); isAlloc {
 					// guarded by !ok of the lookup under the same key
 					for _, ce := range dominatingConds(blk) {
@@ -1098,6 +1167,12 @@ func runJournalTrips(c *Ctx) {
 			for _, in := range blk.Instrs {
 				if call, isCall := in.(*ssa.Call); isCall && staticCallee(call) == tm {
 					e := b.bind(call.Call.Args[1])
+					if prm, isPrm := call.Call.Args[1].(*ssa.Parameter); isPrm && !strings.HasSuffix(e, ".CreatedAt") {
+						// the marking loop lives in a helper that is handed the feed's time
+						if a := uniqueCallArg(c, prm, jregion); a != nil {
+							e = b.bind(a)
+						}
+					}
 					okTime := strings.HasSuffix(e, ".CreatedAt")
 					absent := false
 					for _, ce := range dominatingConds(blk) {
@@ -1175,7 +1250,7 @@ func runJournalTrips(c *Ctx) {
 			}
 			for _, in := range l.Header.Instrs {
 				if nx, ok := in.(*ssa.Next); ok {
-					if r, ok := nx.Iter.(*ssa.Range); ok && strings.HasSuffix(r.X.Type().String(), "journal.Trip") {
+					if r, ok := nx.Iter.(*ssa.Range); ok && strings.HasSuffix(r.X.Type().Underlying().String(), "journal.Trip") {
 						hasAppend := false
 						for blk := range l.Blocks {
 							for _, in2 := range blk.Instrs {
@@ -1191,9 +1266,11 @@ func runJournalTrips(c *Ctx) {
 						if g != bj {
 							// the selection lives in a helper: read its conditions with the helper's parameters standing
 							// for what BuildJournal passes
+							b.litForm = true
 							if sb := b.atCallSite(g, c.regionOf(bj)); sb != nil {
 								selB = sb
 							}
+							b.litForm = false
 						}
 					}
 				}
@@ -1216,15 +1293,14 @@ func runJournalTrips(c *Ctx) {
 			c.Violated("ACCT", fname, "selection by window and assignment", p.pos(selLoop.Header.Instrs[0].Pos()), "the loop over the journal's trips keeps nothing")
 		} else {
 			atoms := map[string]bool{}
+			selB.litForm = true
 			for _, ce := range dominatingConds(keep) {
 				if ce.Composite || ce.If == nil || !selLoop.Blocks[ce.If.Block()] || ce.If.Block() == selLoop.Header {
 					continue
 				}
-				e := selB.bind(ce.Cond)
-				if !ce.Val {
-					e = "!" + e
+				for _, e := range predicateAtoms(selB, ce.Cond, ce.Val, 0) {
+					atoms[e] = true
 				}
-				atoms[e] = true
 			}
 			var got []string
 			for a := range atoms {
@@ -1286,7 +1362,44 @@ func runJournalTrips(c *Ctx) {
 			}
 		}
 	}
+	if !okAllStops {
+		// or the list is handed, on every path, to a helper that marks each element of the list it is given
+		if call := markAllCall(c, tm, stMark, func(seq, _ ssa.Value) bool { return strings.HasSuffix(canon(seq), ".StopTimes)") }); call != nil {
+			okAllStops = true
+			for _, blk := range tm.Blocks {
+				if _, isRet := blk.Instrs[len(blk.Instrs)-1].(*ssa.Return); isRet && !(call.Block() == blk || call.Block().Dominates(blk)) {
+					okAllStops = false
+				}
+			}
+		}
+	}
 	c.Check(okAllStops, "ACCT", shortName(tm), "marking a trip past marks all its stops", p.pos(tm.Pos()), "for every index of StopTimes: StopTimes[i].markPast(t)", "marking a trip past does not visit every stop time")
+}
+
+// resultOf: v is a result of f: a call of f, or a call of a one-result function every return of which hands back a
+// result of f (an apply-and-report-the-key helper).
+func resultOf(v ssa.Value, f *ssa.Function, d int) bool {
+	call, isCall := v.(*ssa.Call)
+	if !isCall || d > 2 {
+		return false
+	}
+	h := staticCallee(call)
+	if h == f {
+		return true
+	}
+	if h == nil || call.Call.IsInvoke() || len(h.Blocks) == 0 || h.Signature.Results().Len() != 1 {
+		return false
+	}
+	n := 0
+	for _, blk := range h.Blocks {
+		if ret, ok := blk.Instrs[len(blk.Instrs)-1].(*ssa.Return); ok {
+			n++
+			if !resultOf(ret.Results[0], f, d+1) {
+				return false
+			}
+		}
+	}
+	return n > 0
 }
 
 // setKeysFrom: every key put into a map of type t anywhere in the given functions is a result of f.
@@ -1297,8 +1410,7 @@ func setKeysFrom(fns []*ssa.Function, t types.Type, f *ssa.Function) bool {
 			for _, in := range b.Instrs {
 				if mu, ok := in.(*ssa.MapUpdate); ok && types.Identical(mu.Map.Type(), t) {
 					n++
-					call, isCall := mu.Key.(*ssa.Call)
-					if !isCall || staticCallee(call) != f {
+					if !resultOf(mu.Key, f, 0) {
 						return false
 					}
 				}
@@ -1421,6 +1533,20 @@ func runTripUpdateShape(c *Ctx, tu *ssa.Function, b *binder) {
 			if st, ok := in.(*ssa.Store); ok {
 				if fa, ok := st.Addr.(*ssa.FieldAddr); ok && fa.X == ssa.Value(tu.Params[0]) {
 					hasStore = true
+				}
+			}
+			// ... or hands the receiver to a method of the same type that does (the bookkeeping moved into helpers)
+			if call, ok := in.(*ssa.Call); ok && !call.Call.IsInvoke() && len(call.Call.Args) > 0 && call.Call.Args[0] == ssa.Value(tu.Params[0]) {
+				if h := call.Call.StaticCallee(); h != nil && h != tu && h.Pkg == tu.Pkg && len(h.Blocks) > 0 && len(h.Params) > 0 && types.Identical(h.Params[0].Type(), tu.Params[0].Type()) {
+					for _, hb := range h.Blocks {
+						for _, hin := range hb.Instrs {
+							if st, ok := hin.(*ssa.Store); ok {
+								if fa, ok := st.Addr.(*ssa.FieldAddr); ok && fa.X == ssa.Value(h.Params[0]) {
+									hasStore = true
+								}
+							}
+						}
+					}
 				}
 			}
 		}
@@ -1671,4 +1797,193 @@ func paramOfType(f *ssa.Function, want string) *ssa.Parameter {
 		}
 	}
 	return out
+}
+
+// predicateAtoms: what is known when cond has the value val, in the binder's terms. A call of a loop-free predicate
+// helper of the module that is known to have answered true is replaced by the conditions under which it does so, when
+// those are one conjunction (a single exit that can answer true): the tests on the way to that exit and the parts of
+// the value it returns, with the helper's parameters standing for the call's arguments. Anything else is one atom.
+func predicateAtoms(b *binder, cond ssa.Value, val bool, depth int) []string {
+	for {
+		u, isNot := cond.(*ssa.UnOp)
+		if !isNot || u.Op != token.NOT {
+			break
+		}
+		cond, val = u.X, !val
+	}
+	atom := func() []string {
+		e := b.bind(cond)
+		if !val {
+			e = "!" + e
+		}
+		return []string{e}
+	}
+	call, isCall := cond.(*ssa.Call)
+	if !isCall || !val || depth > 2 || call.Call.IsInvoke() {
+		return atom()
+	}
+	cal := call.Call.StaticCallee()
+	if cal == nil || !b.c.P.isModuleFn(cal) || len(cal.Blocks) == 0 || len(cal.Params) != len(call.Call.Args) || cal.Signature.Results().Len() != 1 || len(naturalLoops(cal)) > 0 {
+		return atom()
+	}
+	var args []string
+	for _, a := range call.Call.Args {
+		args = append(args, b.bind(a))
+	}
+	sub := b.withArgs(cal, args)
+	var disjuncts [][]condEdge
+	for _, blk := range cal.Blocks {
+		ret, ok := blk.Instrs[len(blk.Instrs)-1].(*ssa.Return)
+		if !ok {
+			continue
+		}
+		rv := ret.Results[0]
+		if bv, isC := constBool(rv); isC && !bv {
+			continue
+		}
+		var ces []condEdge
+		for _, ce := range dominatingConds(blk) {
+			if !ce.Composite {
+				ces = append(ces, ce)
+			}
+		}
+		if _, isC := rv.(*ssa.Const); !isC {
+			for _, ce := range atomise(condEdge{Cond: rv, Val: true}, 0) {
+				if !ce.Composite {
+					ces = append(ces, ce)
+				}
+			}
+		}
+		disjuncts = append(disjuncts, ces)
+	}
+	if len(disjuncts) != 1 {
+		return atom()
+	}
+	seen := map[string]bool{}
+	var out []string
+	for _, ce := range disjuncts[0] {
+		for _, e := range predicateAtoms(sub, ce.Cond, ce.Val, depth+1) {
+			if !seen[e] {
+				seen[e] = true
+				out = append(out, e)
+			}
+		}
+	}
+	if len(out) == 0 {
+		return atom()
+	}
+	return out
+}
+
+// markAllCall: a call in fn of a helper of the module that is handed a list of stop times and a time and does
+// nothing but call mark(&list[i], time) for every index i of that list (one range loop over the parameter, the call on
+// every trip around it, no store outside its own variables); argOK says whether the list and time handed over are the
+// expected ones. Returns the call, or nil.
+func markAllCall(c *Ctx, fn, mark *ssa.Function, argOK func(seq, tm ssa.Value) bool) *ssa.Call {
+	if mark == nil {
+		return nil
+	}
+	for _, blk := range fn.Blocks {
+		for _, in := range blk.Instrs {
+			call, ok := in.(*ssa.Call)
+			if !ok || call.Call.IsInvoke() {
+				continue
+			}
+			h := call.Call.StaticCallee()
+			if h == nil || h == mark || !c.P.isModuleFn(h) || len(h.Blocks) == 0 || len(h.Params) != len(call.Call.Args) || len(h.Params) != 2 {
+				continue
+			}
+			loops := naturalLoops(h)
+			if len(loops) != 1 {
+				continue
+			}
+			l := loops[0]
+			si, ti := -1, -1
+			for i, prm := range h.Params {
+				if _, isSl := prm.Type().Underlying().(*types.Slice); isSl {
+					si = i
+				} else {
+					ti = i
+				}
+			}
+			if si < 0 || ti < 0 {
+				continue
+			}
+			okAll := true
+			n := pathsWithin(l.Header, l, func(path []*ssa.BasicBlock, back bool) {
+				if !back {
+					return
+				}
+				has := false
+				for _, b := range path {
+					for _, hin := range b.Instrs {
+						if mc, isCall := hin.(*ssa.Call); isCall && staticCallee(mc) == mark && len(mc.Call.Args) == 2 {
+							ia, isIA := mc.Call.Args[0].(*ssa.IndexAddr)
+							if isIA && ia.X == ssa.Value(h.Params[si]) && mc.Call.Args[1] == ssa.Value(h.Params[ti]) {
+								if over, _ := isRangeIndexOver(ia.Index, ia.X); over {
+									has = true
+								}
+							}
+						}
+					}
+				}
+				if !has {
+					okAll = false
+				}
+			})
+			for _, hb := range h.Blocks {
+				for _, hin := range hb.Instrs {
+					switch x := hin.(type) {
+					case *ssa.Store:
+						if _, isAlloc := addrRoot(x.Addr).(*ssa.Alloc); !isAlloc {
+							okAll = false
+						}
+					case *ssa.MapUpdate:
+						okAll = false
+					case *ssa.Call:
+						if staticCallee(x) != mark && !isBuiltin(x, "len") {
+							okAll = false
+						}
+					}
+				}
+			}
+			if okAll && n > 0 && argOK(call.Call.Args[si], call.Call.Args[ti]) {
+				return call
+			}
+		}
+	}
+	return nil
+}
+
+// callsOnEveryPath: h is a loop-free function of the region (not callee itself) in which every path from entry to a
+// return passes a call of callee.
+func callsOnEveryPath(h, callee *ssa.Function, region []*ssa.Function) bool {
+	if h == nil || h == callee || len(h.Blocks) == 0 || len(naturalLoops(h)) > 0 {
+		return false
+	}
+	in := false
+	for _, g := range region {
+		if g == h {
+			in = true
+		}
+	}
+	if !in {
+		return false
+	}
+	ok, n := true, 0
+	enumPaths(h, func(path []*ssa.BasicBlock) {
+		n++
+		has := false
+		for _, b := range path {
+			for _, ins := range b.Instrs {
+				if call, isCall := ins.(*ssa.Call); isCall && staticCallee(call) == callee {
+					has = true
+				}
+			}
+		}
+		if !has {
+			ok = false
+		}
+	})
+	return ok && n > 0
 }
